@@ -143,6 +143,11 @@ func (sc *c10Scenario) Run(s *simrt.Sim) {
 	sc.hTID = -1
 	if sc.Handler {
 		hd = fpgo.Handler.New()
+		if sc.NSubs%4 == 0 {
+			// the library's default Handler, re-created inside this simulation (see C12)
+			fpgo.SimReinit()
+			hd = fpgo.Handler.GetDefault()
+		}
 		p.SubscribeOn(hd)
 		// learn the handler goroutine's thread id
 		got := false
